@@ -96,12 +96,12 @@ META = {
                  'stored before its recursive calls returned (GEN-6); the EBNF -> NFA step: on every path of the four combinators of '
                  'grammar_parser.py (abstractly interpreted: opaque look-ahead with recorded constraints, sub-fragments in five '
                  'representative wirings, at most three operands) the automaton built accepts exactly the language of the '
-                 'EBNF phrase the path consumed (GEN-5, regular-language equivalence); plus the independent verdict that all '
-                 'shipped grammars are LL(1) (GR-1..4). Faithfulness of the NFA -> DFA subset construction and of the '
+                 'EBNF phrase the path consumed (GEN-5, regular-language equivalence). The LL(1) verdict on the shipped grammar '
+                 'files is part of C06 / C02, not of this property (a grammar file cannot break the generator). Faithfulness of the NFA -> DFA subset construction and of the '
                  'first-set / plan tables as an input/output relation is not decided.',
         'note': _TB,
         'technique': 'abstract interpretation of the NFA combinators + regular-language equivalence; dominator / must-raise '
-                     'path rules on generator.py; independent LL(1) analysis',
+                     'path rules on generator.py; effect analysis from generate_grammar',
     },
     'C09': {
         'level': 'Decides prefix purity and splitter totality as a regular-language statement over all strings: only the '
